@@ -13,6 +13,7 @@ import HSModel.Proofs.StepLemmas
 import HSModel.Proofs.RefsSafe
 import HSModel.Proofs.DiscRun
 import HSModel.Proofs.Disc
+import HSModel.Proofs.RefineAll
 namespace HS.C05
 open Abs
 variable (cfg : Config) (o : Oracle)
@@ -142,11 +143,6 @@ theorem objects_only_by_store (a : Abs) (call : Call) (c : Str) (t : Tok)
 
 /-! ### Part 2: the concrete indexes -/
 
-/-- cids handed to `tag_object` are not deletion-marker names (they are digests) -/
-def CidArgPlain : Call → Prop
-  | .tagObject _ (.str c) => Plain c
-  | _ => True
-
 /-- a run without fault plan never acquires one -/
 theorem run_keeps_no_fault {α : Type} (m : Prog α) (w : World) (h : w.fault = none) : (m.run w).2.fault = none := by
   induction m generalizing w with
@@ -235,18 +231,60 @@ theorem exact_means (s : Store) (h : RefsExact o s) (hinj : Inj o.hId) (p c : St
     rw [hb] at this
     cases this; rfl
 
-/-- the hypotheses are satisfiable together: a collision-free identifier hash
-    whose values are never marker names, and digests likewise -/
-def sampleOracle : Oracle := { hId := fun s => s ++ ['0'], dig := fun _ t => (toString t).toList ++ ['0'], size := fun t => t }
+/-! ### Part 3: the concrete calls compute what the specification says
 
-theorem sample_ok : PlainIds sampleOracle ∧ PlainDigests sampleOracle ∧ Inj sampleOracle.hId := by
+`Abs.step` (HSModel/Spec.lean) is "what the sequence implies": three finite maps
+and one clause per call. The concrete program text of every call — the one the
+line-protocol driver executes against the real store on every run — is proved to
+return the same result and to leave a store that holds exactly the abstract
+state, for every call, all arguments, and every history. -/
+
+/-- **one call refines its clause of the specification** -/
+theorem concrete_refines_spec_step (c : Call) (st : Store) (log : List Eff) (a : Abs) (hs : Sim o st a)
+    (ho : GoodOracle o) (hc : CidArgPlain c) :
+    ∃ w', (c.prog cfg o).run (calm st log) = ((Abs.step cfg o a c).1, w') ∧ w'.lk = {} ∧ w'.fault = none ∧
+      Sim o w'.st (Abs.step cfg o a c).2 :=
+  refines_step cfg o c st log a hs ho hc
+
+/-- **every history**: from the empty store, the concrete run of any sequence
+    of public calls returns, call by call, the results of the specification, and
+    ends in a store that holds exactly the specification's final state -/
+theorem concrete_refines_spec_history (cs : List Call) (ho : GoodOracle o) (hcs : ∀ c ∈ cs, CidArgPlain c) :
+    (runHist cfg o cs (calm Store.empty [])).1 = (specHist cfg o cs Abs.empty).1 ∧
+      Sim o (runHist cfg o cs (calm Store.empty [])).2.st (specHist cfg o cs Abs.empty).2 :=
+  ⟨(refines_history_from cfg o cs _ _ rfl rfl (sim_empty o) ho hcs).1,
+   (refines_history_from cfg o cs _ _ rfl rfl (sim_empty o) ho hcs).2.1⟩
+
+/-- what `Sim` says about the directory, spelled out: bindings, objects and
+    documents of the specification are the files, one for one -/
+theorem sim_means (s : Store) (a : Abs) (h : Sim o s a) :
+    (∀ p, a.bind.get p = s.pidRefs.get (o.hId p)) ∧ (∀ c, a.objs.get c = s.objs.get c) ∧
+    (∀ p f, a.docs.get (p, f) = s.mdocs.get (o.hId p, o.hId (p ++ f))) ∧
+    (∀ c, a.referenced c = (s.cidRefs.get c).isSome) ∧
+    s.tmpRefs = 0 ∧ s.tmpObj = 0 ∧ s.tmpMeta = 0 :=
+  ⟨h.rel.bind, h.rel.objs, h.rel.docs, fun c => referenced_rel h.rel h.refs c, h.refs.no_tmp.1, h.refs.no_tmp.2,
+   h.docs.no_tmp⟩
+
+/-- the hypotheses are satisfiable together: a collision-free identifier hash
+    whose values are never marker names, digests likewise and well-formed -/
+def sampleOracle : Oracle :=
+  { hId := fun s => s ++ ['0'], dig := fun _ t => List.replicate t 'a' ++ ['0'], size := fun t => t }
+
+theorem sample_ok : GoodOracle sampleOracle := by
   have key : ∀ s : Str, Plain (s ++ ['0']) := by
     intro s h
     obtain ⟨t, ht⟩ := h
     have h2 := congrArg List.getLast? ht
     simp [deleteSuffix] at h2
-  refine ⟨fun p => key p, fun a t => key _, ?_⟩
-  intro a b hab
-  exact List.append_cancel_right hab
+  refine ⟨?_, fun p => key p, fun a t => key _, ?_⟩
+  · intro a b hab
+    exact List.append_cancel_right hab
+  · intro a t
+    rw [checkStringOk_iff]
+    refine ⟨by simp [sampleOracle], ?_⟩
+    rw [hasSpace_false_iff]
+    intro c hc
+    simp only [sampleOracle, List.mem_append, List.mem_replicate, List.mem_singleton] at hc
+    rcases hc with ⟨_, rfl⟩ | rfl <;> decide
 
 end HS.C05
